@@ -24,7 +24,7 @@ var lookAlikes = []string{"\n.\n", "\n.\r\n", "\r\n.\n", "\r.\r", "\r\n.\rX", "\
 
 func genC02(t *Tape, tier string) *Scenario {
 	sc := &Scenario{Prop: "C02"}
-	sc.Srv = drawCfg(t, cfgOpts{})
+	sc.Srv = drawCfg(t, cfgOpts{allowTLS: true})
 	sc.Srv.MaxRcpt = 0
 	if sc.Srv.MaxLine != 0 && sc.Srv.MaxLine < 200 {
 		sc.Srv.MaxLine = 200
